@@ -13,6 +13,7 @@ import SeliumModel.Lemmas.PubSubSettle
 import SeliumModel.Lemmas.ReqRepMore
 import SeliumModel.Lemmas.ReqRepQuiet
 import SeliumModel.Lemmas.ReqRepSettle
+import SeliumModel.Lemmas.ReqRepIdle
 
 namespace Selium.Route
 open Selium.Sink
@@ -152,6 +153,17 @@ theorem c09_reqrep_wake_driven_executor_unblocks (s : RR) (orc : Nat → List Na
   obtain ⟨n, hn, hb⟩ := rrRunPolls_unblocks s orc
   exact ⟨n, hn, hb, (rrPoll_quiet _ _).1⟩
 
+/-- The early park. When nothing is connected and nothing is buffered the router returns Pending without flushing —
+    and for every reachable state that is safe: a poll that ends `idle` leaves every requestor sink with everything it
+    was handed covered by a completed flush. Behind it is an invariant over all histories (`KL`): a requestor sink can
+    hold an unflushed reply only while a replier is bound or a request is buffered, because every way a replier gets
+    unbound with no request buffered (its stream ended; its sink failed while being flushed) goes through a completed
+    flush of the requestor sinks first. -/
+theorem c09_reqrep_idle_means_flushed (history : List REvent) (fuel : Nat) (so ko : List Nat)
+    (h : (rrPoll fuel { rrExec history with so := so, ko := ko }).1 = .idle) :
+    ∀ k ∈ (rrPoll fuel { rrExec history with so := so, ko := ko }).2.sinks, k.flushed = k.got.length :=
+  (rrPoll_good fuel _ (KL_of_eq (t := { rrExec history with so := so, ko := ko }) (rrExec_KL history) rfl rfl rfl rfl)).2 h
+
 /-! Non-vacuity: a requestor whose sink answers Pending to readiness twice and to the flush once, a replier with a
     reply for it: the first three polls end blocked on the requestor, the fourth delivers and flushes the reply
     (both peers have gone by then: it ends idle). -/
@@ -182,3 +194,4 @@ end Selium.Route
 #print axioms Selium.Route.c09_reqrep_no_unflushed_work
 #print axioms Selium.Route.c09_reqrep_blocked_poll_makes_progress
 #print axioms Selium.Route.c09_reqrep_wake_driven_executor_unblocks
+#print axioms Selium.Route.c09_reqrep_idle_means_flushed
